@@ -106,8 +106,12 @@ def cases(tier, seed):
         yield "rg.bounds", {"sizes": sizes, "reg": [name, [3], []], "expect": "ok", "name": name, "want_s": 3, "want_e": ln}
         yield "rg.bounds", {"sizes": sizes, "reg": f"{name}:3-", "expect": "ok", "name": name, "want_s": 3, "want_e": ln}
         yield "rg.bounds", {"sizes": sizes, "reg": [name, [], [4]], "expect": "ok", "name": name, "want_s": 0, "want_e": 4}
+        yield "rg.bounds", {"sizes": sizes, "reg": f"{name}:{ln}-", "expect": "ok", "name": name, "want_s": ln, "want_e": ln}
+        yield "rg.bounds", {"sizes": sizes, "reg": [name, [ln], []], "expect": "ok", "name": name, "want_s": ln, "want_e": ln}
         for reg in ([name, [0], [ln + 1]], f"{name}:0-{ln + 1}", [name, [ln + 1], [ln + 2]], [name, [-1], [1]], [name, [5], [4]],
-                    f"{name}:{ln}-{ln + 1}", f"{name}:0-{ln * 10}"):
+                    f"{name}:{ln}-{ln + 1}", f"{name}:0-{ln * 10}",
+                    # an open end that starts beyond the chromosome
+                    f"{name}:{ln + 1}-", [name, [ln + 1], []], f"{name}:{ln * 5}-", [name, [ln * 5], []], [name, [-2], []]):
             yield "rg.bounds", {"sizes": sizes, "reg": reg, "expect": "refuse", "name": name, "want_s": 0, "want_e": 0}
     for reg in ("chrZ", "chrZ:1-2", ["nope", [0], [1]], ["chr1 ", [0], [1]], "CHR1:0-5"):
         yield "rg.bounds", {"sizes": sizes, "reg": reg, "expect": "refuse", "name": "", "want_s": 0, "want_e": 0}
